@@ -2,6 +2,7 @@
 pub mod san;
 pub mod semver;
 pub mod ren;
+pub mod sch;
 pub mod flow;
 pub mod bump;
 pub mod cal;
